@@ -283,8 +283,9 @@ def main(tier, seed, replay=None):
     rnd = random.Random(seed * 7919 + 12)
     model_check(v, tier)
     scs = join_sweep(tier) + [gen_random(rnd, k) for k in range(80 if tier == 'quick' else 2000)]
-    traces = run_scenarios(scs)
-    judge(v, traces, scs)
+    for lo in range(0, len(scs), 300):          # chunk by chunk: bounded memory in thorough runs
+        part = scs[lo:lo + 300]
+        judge(v, run_scenarios(part), part)
     v.cov['distinct_nontrivial'] = len({json.dumps(s, sort_keys=True) for s in scs})
     v.sample({'scenario': scs[-1]})
     v.cov['rule'] = ('one trace per scenario (join sweep position or seeded random script + scheduler seed); every '
